@@ -101,7 +101,7 @@ for (kind, site), a in sorted(by_sig.items()):
         try:
             c1.send_raw(server.encode([x.encode("latin1") for x in a["argv"]]))
             try:
-                c1.read_reply(timeout=4.0)
+                c1.read_reply(timeout=20.0)
                 answered = True
             except Exception:
                 answered = False
@@ -110,7 +110,7 @@ for (kind, site), a in sorted(by_sig.items()):
                 verdict = "server process exited (rc=%s): %s" % (srv.p.returncode, srv.tail(600))
             else:
                 try:
-                    r = other.cmd("PING", timeout=2.0)
+                    r = other.cmd("PING", timeout=20.0)
                     ok_other = r[0] == "+"
                 except Exception:
                     ok_other = False
@@ -118,10 +118,10 @@ for (kind, site), a in sorted(by_sig.items()):
                 try:
                     c3 = srv.client()
                     for k in ("str", "lst", "hsh", "st", "zs", "xs"):
-                        c3.cmd("EXISTS", k, timeout=2.0)
+                        c3.cmd("EXISTS", k, timeout=20.0)
                     # the same key as the offending command, on a fresh connection
                     if len(a["argv"]) > 1:
-                        c3.cmd("EXISTS", a["argv"][1].encode("latin1"), timeout=2.0)
+                        c3.cmd("EXISTS", a["argv"][1].encode("latin1"), timeout=20.0)
                     c3.close()
                 except Exception as e:
                     probe_ok = False
@@ -130,7 +130,7 @@ for (kind, site), a in sorted(by_sig.items()):
                 elif not probe_ok:
                     verdict = "later commands on the keys no longer complete (lock stripe wedged)"
                 elif not answered and kind == "timeout":
-                    verdict = "command never answered on the real server (no reply within 4 s)"
+                    verdict = "command never answered on the real server (no reply within 20 s)"
         except Exception as e:
             verdict = None
         if verdict:
